@@ -14,6 +14,7 @@ import (
 	"github.com/feichai0017/NoKV/manifest"
 	"github.com/feichai0017/NoKV/metrics"
 	"github.com/feichai0017/NoKV/utils"
+	"github.com/feichai0017/NoKV/utils/verifhook"
 	vlogpkg "github.com/feichai0017/NoKV/vlog"
 	"github.com/pkg/errors"
 )
@@ -320,6 +321,7 @@ func (vlog *valueLog) doRunGC(bucket uint32, fid uint32, discardRatio float64) (
 		return utils.ErrNoRewrite
 	}
 
+	verifhook.Point("vlog.gc.sampled")
 	vlog.logf("Fid: %d bucket: %d. Skipped: %5.2fMB Data status={total:%5.2f discard:%5.2f count:%d}", fid, bucket, stats.SkippedMiB, stats.TotalMiB, stats.DiscardMiB, stats.Count)
 
 	sizeWindow := stats.SizeWindow
@@ -446,6 +448,7 @@ func (vlog *valueLog) rewrite(bucket uint32, fid uint32) error {
 		}
 	}
 
+	verifhook.Point("vlog.gc.rewritten")
 	deleteNow := false
 	vlog.filesToDeleteLock.Lock()
 	if vlog.iteratorCount() == 0 {
@@ -459,6 +462,7 @@ func (vlog *valueLog) rewrite(bucket uint32, fid uint32) error {
 		if err := vlog.removeValueLogFile(bucket, fid); err != nil {
 			return err
 		}
+		verifhook.Point("vlog.gc.fileRemoved")
 	}
 	return nil
 }
